@@ -19,6 +19,18 @@ REVIEWED_RAISES = {
 }
 
 
+# constant-index subscripts whose length guarantee is a fact of the tree-sitter grammar (or of a separately checked contract),
+# not of the control flow: (function, anonymised subscript) -> (number of such sites, reason)
+REVIEWED_INDEX = {
+    ("parse_delimited_sequence", "$[-1]"): (1, "items[-1] after can_inline_comment(...): the callback contract is R-C20-3"),
+    ("_parse_argument_set", "$[-1]"): (1, "`?` token of a formal: the grammar puts the formal's identifier, appended just before, first"),
+    ("_parse_named_argument_set", "$[0]"): (1, "children_types (parallel list of the same nodes) was checked to have >= 3 entries"),
+    ("_parse_named_argument_set", "$[2]"): (1, "children_types (parallel list of the same nodes) was checked to have >= 3 entries"),
+    ("LetExpression.from_cst", "$.children[0]"): (1, "binding_set node exists and produced bindings: a binding_set has >= 1 child"),
+    ("LetExpression.from_cst", "$.children[-1]"): (1, "binding_set node exists and produced bindings: a binding_set has >= 1 child"),
+}
+
+
 def nesting_field(prog: Program, cname: str, field: str) -> bool:
     """can this field hold an arbitrary (nestable) expression?"""
     ann = prog.fields(cname).get(field)
@@ -170,6 +182,43 @@ def run(prog: Program) -> Results:
                     res.add("R-C20-3", (target.key, "callback may accept with empty items"), target.loc(),
                             f"{target.key} can return true while `{items_param}` is empty; parse_delimited_sequence then evaluates "
                             f"`items[-1]` and raises IndexError (e.g. two same-line comments before the first element)")
+    # ---------------------------------------------------------------- R-C20-4 index safety
+    from sa.guards import const_index, guarded
+    from sa.model import alpha
+    r4 = res.rule("R-C20-4", "no implicit IndexError: every constant-index subscript (`xs[0]`, `xs[-1]`, ...) in the parse/rebuild "
+                  "closure is reached only where a dominating test, an earlier operand of the same and/or chain, a boolean local, "
+                  "a one-expression helper or every call site of the enclosing closure establishes the needed length", floor=40)
+    cfgs: dict = {}
+    unguarded: dict = {}
+    for k in sorted(closure):
+        f = prog.funcs[k]
+        if f.module.startswith(skip_mod) or f.name in ("__repr__", "__eq__"):
+            continue
+        if k in ("scopes_for_owner", "function_call_scope", "_resolve_identifier", "get_binding", "NixSourceCode.expr") or k.startswith(
+                ("_resolve_identifier.", "function_call_scope.", "NixSourceCode._resolve_target_set")):
+            continue
+        for n in walk_no_nested(f.node):
+            if isinstance(n, ast.Subscript) and isinstance(n.ctx, ast.Load) and const_index(n.slice) is not None:
+                # tuples returned by helpers / fixed-shape pairs are not sequences of unknown length
+                r4.instances += 1
+                ok, how = guarded(f, n, cfgs, prog)
+                if ok:
+                    r4.ob(True, {"site": k, "subscript": norm(n)[:50], "evidence": how})
+                else:
+                    top = f
+                    while top.parent is not None:
+                        top = top.parent
+                    unguarded.setdefault((k, alpha(n, top.node, anonymous=True)), []).append(n)
+    for (k, pat), nodes in sorted(unguarded.items(), key=lambda kv: kv[0]):
+        allowed, reason = REVIEWED_INDEX.get((k, pat), (0, None))
+        for i, n in enumerate(nodes):
+            ok = i < allowed
+            r4.ob(ok, {"site": k, "subscript": norm(n)[:50], "reviewed": reason} if ok else {"site": k, "subscript": norm(n)[:50]})
+            if not ok:
+                res.add("R-C20-4", (k, "unguarded index", pat), prog.funcs[k].loc(n),
+                        f"{k}: `{norm(n)[:60]}` is evaluated on a path where nothing establishes that the sequence is long enough: "
+                        f"an input that leaves it short raises IndexError out of parse/rebuild")
+    res.tables.append(f"sa/rules/c20.py:REVIEWED_INDEX ({len(REVIEWED_INDEX)} grammar-shape entries)")
     res.tables.append(f"sa/rules/c20.py:REVIEWED_RAISES ({len(REVIEWED_RAISES)} entries)")
     res.assumptions = ["absence of implicit IndexError/AttributeError/TypeError on arbitrary text is not decided (needs value ranges)",
                        "measured running time is not decided; only the doubling structure is"]
